@@ -60,7 +60,7 @@ CHECKS = {
          "For each generated valid call history every insertion position (all of them in thorough; all for histories <=14 calls in quick) receives failing calls of one of nine kinds (misplaced leaf/master, size not representable in requested width for leaf and Full, unknown size on a leaf via both APIs, malformed raw id, wrong End, Full with an invalid child at depth 1-3, several in a row); per-call results of the original calls, the result of into_inner() and the final destination bytes must equal those of the history without the failing calls.",
          "I/O errors are not injected (outside the property); candidates the writer accepts are vacuous", "DESIGN.md §5 C19"),
  "C15": ("exploration", "runtime monitor: differential oracle against an independent reference vint codec, catch_unwind + overflow trapping, exhaustive small widths",
-         "Every public vint function in ebml_iterable::tools is called on real inputs and compared with an independent reference codec: exhaustive for unsigned widths <=2 (quick) / <=4 (thorough, 2^28 values) and signed widths <=2 / <=3, +-2 lattice around every 2^(7k), 2^(7k-1), 2^(8k), random 64-bit values, all byte slices of length <=2 and every first byte x truncation for lengths 3..9. Held = no disagreement and no panic/overflow trap on everything executed.",
+         "Every public vint function in ebml_iterable::tools is called on real inputs and compared with an independent reference codec: exhaustive for unsigned widths <=3 (quick) / <=4 (thorough, 2^28 values) and signed widths <=3, +-2 lattice around every 2^(7k), 2^(7k-1), 2^(8k), random 64-bit values, all byte slices of length <=2 and every first byte x truncation for lengths 3..9. Held = no disagreement and no panic/overflow trap on everything executed.",
          "trusts refcodec.rs (written from RFC 8794, no shared code); the signed value -2^(7L-1) is a don't-care; values >= 2^56 only checked for no-panic and rejection", "DESIGN.md §5 C15"),
  "C16": ("exploration", "runtime monitor: differential oracle against reference payload decoders + real TagWriter output decoded by a reference header decoder",
          "arr_to_u64/arr_to_i64/arr_to_f64 are executed on all slices of length 0..2 and on boundary/random slices up to length 12 and compared with reference decoders under catch_unwind; single-element documents are written by the real TagWriter for lattice and random 64-bit values and the emitted payload must have the minimal 1/2/4/8 width and decode back bit-for-bit.",
